@@ -255,7 +255,7 @@ class Prog:
         if k == "memory":
             if self.persist is None:
                 dds.set_store("memory")
-                self.persist = api._store_var
+                self.persist = api._store()
             inner = self.persist
         elif k.startswith("local"):
             kw = {}
@@ -264,16 +264,16 @@ class Prog:
             elif k == "local_cache100":
                 kw["cache_objects"] = 100
             dds.set_store("local", internal_dir=os.path.join(self.store_dir, "i"), data_dir=os.path.join(self.store_dir, "d"), **kw)
-            inner = api._store_var
+            inner = api._store()
         elif k == "noop":
             dds.set_store("noop")
-            inner = api._store_var
+            inner = api._store()
         elif k == "dbfs":
             if self.persist is None:
                 from ..seqmc.fake_dbutils import FakeDbutils
                 self.persist = FakeDbutils()
             dds.set_store("dbfs", internal_dir="dbfs:/int", data_dir="dbfs:/data", dbutils=self.persist)
-            inner = api._store_var
+            inner = api._store()
         else:
             raise ValueError(k)
         self.capture = CaptureStore(inner)
@@ -356,7 +356,7 @@ class Prog:
         """several program instances may live in one worker: make this one's store and accepted package current"""
         import dds
         import dds._api as api
-        if api._store_var is not self.capture and self.capture is not None:
+        if self.capture is not None and getattr(api, "_store_var", None) is not self.capture:
             dds.set_store(self.capture)
         for p in self.accept_first + [self.pkg + self.accept_suffix] + self.extra_accept:
             dds.accept_module(p)
